@@ -11,12 +11,15 @@ TRead     == IsEvent("read")     /\ RRead(E.n, E.ret, E.eq, E.bad)
 TClose    == IsEvent("close")    /\ RClose(E.ret)
 TTool     == IsEvent("tool")     /\ RToolExit(E.status, E.outEq) /\ UNCHANGED rvars
 TGetChunk == IsEvent("getchunk") /\ RGetChunk(E.fvalid, E.want, E.ret, E.eq)
-TScan     == IsEvent("scan")     /\ RScan(E.ret, E.vec)
-TValData  == IsEvent("valdata")  /\ RValidateData(E.ret)
+TScan     == IsEvent("scan")     /\ RScan(E.ret, E.vec, E.es)
+TValData  == IsEvent("valdata")  /\ RValidateData(E.ret, E.es)
 TSame     == IsEvent("unmodified") /\ RUnmodified(E.same)
+TBegin    == IsEvent("begin") /\ UNCHANGED rvars          \* marks the start of a test case (may span two executions)
+TSetBase  == IsEvent("setbaseline") /\ RSetBaseline
+TSameBase == IsEvent("samebaseline") /\ RSameAsBaseline
 
 Init == RInit /\ l = 1
-Next == TOpen \/ TRead \/ TClose \/ TTool \/ TGetChunk \/ TScan \/ TValData \/ TSame
+Next == TOpen \/ TRead \/ TClose \/ TTool \/ TGetChunk \/ TScan \/ TValData \/ TSame \/ TSetBase \/ TSameBase \/ TBegin
 Spec == Init /\ [][Next]_tvars
 Accepted == /\ PrintT(<<"MATCHED", TLCGet("stats").diameter - 1, Len(TraceLog)>>)
             /\ TLCGet("stats").diameter - 1 = Len(TraceLog)
